@@ -4,17 +4,16 @@ import os
 import random
 
 META = {
-    "disabled": True,
     "level": "model_checking",
     "text": "TLA+ specification of both retry selection functions with the shuffles as hidden choices; TLC checks the seat-bound, "
             "operator-atomicity, distinct/ordered/complete exclusion invariants for every seat list of up to 4-5 operators with uneven "
             "seat counts and every requested count, and shows that a variant computing triplet eligibility from the wrong operator "
-            "violates them. Every input TLC enumerates (5 operators, up to 7-8 seats) is run through the real functions for all retry "
+            "violates them. Every input TLC enumerates (5 operators, up to 6-7 seats) is run through the real functions for all retry "
             "numbers until the documented error, on two nodes and again in shuffled order, under several address assignments and seeds; "
             "results are compared with the specification's eligible sets and the whole call history is trace-validated (TLC infers one "
             "permutation per shuffle).",
     "note": "Trusted: math/rand is not modelled (any permutation is accepted as long as it is the same on every evaluation); seat lists "
-            "beyond 5 distinct operators / 8 seats are not enumerated; seeds are sampled.",
+            "beyond 5 distinct operators / 7 seats are not enumerated; seeds are sampled.",
     "technique": "TLA+ spec + hazard variant, TLC exhaustive; TLC-enumerated inputs replayed on the real functions; trace validation with inferred permutations",
     "design_ref": "DESIGN.md §4.3 C09",
 }
@@ -78,7 +77,7 @@ def run(ctx):
     if ctx.thorough:
         # every input is run and compared with the specification's sets; a sample is also trace-validated
         sel = list(cases)
-        traced = set(id(c) for c in rnd.sample(plain, min(1200, len(plain))) + rnd.sample(hazard, min(400, len(hazard))))
+        traced = set(id(c) for c in rnd.sample(plain, min(1500, len(plain))) + rnd.sample(hazard, min(600, len(hazard))))
     else:
         sel = rnd.sample(plain, min(160, len(plain))) + rnd.sample(hazard, min(50, len(hazard)))
         traced = set(id(c) for c in sel)
@@ -128,7 +127,7 @@ def run(ctx):
         rule="every canonical seat list TLC enumerates (<=5 operators, <=3 seats each, length <=%d) x every requested count "
              "0..len+1; quick: seeded sample plus inputs on which the hazard variant differs, thorough: larger sample; each under "
              "several address assignments and seeds, all retry numbers until past the error; non-trivial = inputs with at least "
-             "one eligible exclusion (keygen) or more than one possible accepted set (signing)" % ctx.pick(6, 8),
+             "one eligible exclusion (keygen) or more than one possible accepted set (signing)" % ctx.pick(6, 7),
         assumptions=["math/rand shuffles are treated as arbitrary permutations, fixed per (seed, class)",
                      "operator identity enters only through the address order (canonical lists x address assignments)",
                      "seeds and address assignments are sampled, not enumerated"],
